@@ -7,6 +7,7 @@ from ..pycfg import CFG, walk_no_nested, contained, handler_reraises, enclosing_
 from ..pyflow import Taint
 from ..source import AnalysisError, find_function, first_line, src, functions, qualname, enclosing_function
 from . import C13
+from .. import rails, colang2
 
 GEN1 = "nemoguardrails/actions/llm/generation.py"
 GEN2 = "nemoguardrails/actions/v2_x/generation.py"
@@ -38,6 +39,12 @@ def run(ctx):
     b_next_events(ctx)
     b_dynamic_exec(ctx)
     b_generated_value_types(ctx)
+    b_llm_exception_scope(ctx)
+    b_fallback_source(ctx)
+    a_utterance_verbatim(ctx)
+    a_interpolation_escape(ctx)
+    b_guards_live(ctx)
+    b_dynamic_flow_bounded(ctx)
 
 
 def _is_source(c):
@@ -458,3 +465,325 @@ def b_generated_value_types(ctx):
             ctx.check("C17.b.generated-value-types", GEN2, vn, "accepted types are encodable", not extra and default_reject,
                       "validator accepts %s, all handled by encode_to_dict (%d handled types), and rejects everything else" % (sorted(accepted), len(handled)) if not extra and default_reject else
                       "validator accepts %s which encode_to_dict does not handle, or does not reject by default" % (extra or "unknown types"), line=vf.lineno)
+
+
+def b_llm_exception_scope(ctx):
+    """LLMCallException is the one exception the action dispatcher deliberately forwards (`except LLMCallException: raise`): it means "the provider failed".
+    A `try` that converts every exception into LLMCallException must therefore not also *consume* the completion - an IndexError on an empty or odd
+    completion would leave generate() instead of becoming a failed action."""
+    n = 0
+    for rel in ctx.tree.glob("nemoguardrails/actions", (".py",)) + ctx.tree.glob("nemoguardrails/llm", (".py",)):
+        t = ctx.tree.ast(rel)
+        for fn in functions(t):
+            for tr in [x for x in walk_no_nested(fn) if isinstance(x, ast.Try)]:
+                if not any(isinstance(r, ast.Raise) and r.exc is not None and "LLMCallException" in src(r.exc) for h in tr.handlers for r in ast.walk(h)):
+                    continue
+                n += 1
+                results = set()
+                bad = None
+                for st in tr.body:
+                    for x in ast.walk(st):
+                        if isinstance(x, (ast.Assign, ast.AnnAssign)) and x.value is not None and any(isinstance(a, ast.Await) for a in ast.walk(x.value)):
+                            tg = x.targets[0] if isinstance(x, ast.Assign) else x.target
+                            for nm in ast.walk(tg):
+                                if isinstance(nm, ast.Name):
+                                    results.add(nm.id)
+                        # the awaited completion used in place: (await ...).generations[0]
+                        if isinstance(x, (ast.Attribute, ast.Subscript)) and isinstance(x.value, ast.Await) and bad is None:
+                            bad = x
+                for st in tr.body:
+                    for x in ast.walk(st):
+                        if isinstance(x, ast.Name) and isinstance(x.ctx, ast.Load) and x.id in results and bad is None:
+                            bad = x
+                ctx.check("C17.b.llm-exception-scope", rel, qualname(fn), first_line(tr.body[0], 60), bad is None,
+                          "the try whose handler raises LLMCallException contains the provider call only; the completion is consumed outside it" if bad is None else
+                          "`%s` (line %d) consumes the completion inside the try that turns every exception into LLMCallException: the dispatcher forwards that exception, so an "
+                          "empty or malformed completion raises out of generate() instead of failing the action" % (first_line(bad, 50), bad.lineno), line=tr.lineno)
+    ctx.floor("C17.b.llm-exception-scope", UTILS, "try blocks that convert to LLMCallException", n, 2)
+
+
+def b_fallback_source(ctx):
+    """When generated Colang does not parse, AddFlowsAction parses a REPLACEMENT flow.  That replacement is Colang source again: whatever is pasted into it is
+    parsed and its string literals are interpolated when the flow runs.  The parse error's message quotes the offending LLM tokens, so the replacement source
+    must not depend on the caught exception."""
+    t2 = ctx.tree.ast(RT2)
+    add = find_function(t2, "_add_flows_action")
+    if add is None:
+        raise AnalysisError("_add_flows_action not found", anchor=RT2 + "::_add_flows_action")
+    n = 0
+    for tr in [x for x in walk_no_nested(add) if isinstance(x, ast.Try)]:
+        for h in tr.handlers:
+            parses = [c for st in h.body for c in ast.walk(st) if isinstance(c, ast.Call) and src(c.func) == "parse_colang_file"]
+            if not parses or not h.name:
+                continue
+            derived = {h.name}
+            changed = True
+            while changed:
+                changed = False
+                for st in h.body:
+                    for a in ast.walk(st):
+                        if isinstance(a, (ast.Assign, ast.AugAssign, ast.AnnAssign)) and a.value is not None:
+                            tg = a.targets[0] if isinstance(a, ast.Assign) else a.target
+                            if isinstance(tg, ast.Name) and tg.id not in derived and any(isinstance(x, ast.Name) and x.id in derived for x in ast.walk(a.value)):
+                                derived.add(tg.id)
+                                changed = True
+            for c in parses:
+                n += 1
+                content = [k.value for k in c.keywords if k.arg == "content"] or list(c.args[1:2])
+                used = sorted({x.id for v in content for x in ast.walk(v) if isinstance(x, ast.Name) and x.id in derived})
+                ctx.check("C17.b.fallback-source", RT2, qualname(add), first_line(c, 60), not used,
+                          "the replacement flow's source does not depend on the caught parse error" if not used else
+                          "the replacement flow's source depends on %s, i.e. on the parse error, whose message quotes the offending LLM tokens: `{...}` inside them is evaluated when the "
+                          "replacement flow runs, and a failing expression ends the turn with an empty reply" % used, line=c.lineno)
+    ctx.floor("C17.b.fallback-source", RT2, "replacement parses in the AddFlowsAction handler", n, 1)
+    # the replacement must carry the NAME of the flow that failed to parse (its caller awaits it by name).  Both producers of generated flows put a decorator
+    # line before the definition, so the name has to be taken from the line that starts with `flow `, not from a fixed position.
+    g2 = ctx.tree.ast(GEN2)
+    decorated = [c for c in ast.walk(g2) if isinstance(c, (ast.JoinedStr, ast.Constant)) and "@meta(" in src(c)]
+    for tr in [x for x in walk_no_nested(add) if isinstance(x, ast.Try)]:
+        for h in tr.handlers:
+            if not any(isinstance(c, ast.Call) and src(c.func) == "parse_colang_file" for st in h.body for c in ast.walk(st)):
+                continue
+            # backward slice inside the handler: the expressions the replacement source is computed from
+            assigns = [a for st in h.body for a in ast.walk(st) if isinstance(a, ast.Assign) and isinstance(a.targets[0], ast.Name)]
+            pcs = [c for st in h.body for c in ast.walk(st) if isinstance(c, ast.Call) and src(c.func) == "parse_colang_file"]
+            work = [k.value for c in pcs for k in c.keywords if k.arg == "content"] + [c.args[1] for c in pcs if len(c.args) > 1]
+            chain, seen_names = [], set()
+            while work:
+                e = work.pop()
+                chain.append(e)
+                for nm in ast.walk(e):
+                    if isinstance(nm, ast.Name) and nm.id not in seen_names:
+                        seen_names.add(nm.id)
+                        work += [a.value for a in assigns if a.targets[0].id == nm.id]
+            txt = "\n".join(src(e) for e in chain)
+            by_prefix = bool(re.search(r"startswith\(\s*['\"]flow ", txt) or re.search(r"re\.(search|match|findall)\(\s*r?['\"][^'\"]*flow", txt))
+            positional = [a for e in chain for a in ast.walk(e) if isinstance(a, ast.Subscript) and isinstance(a.slice, ast.Constant) and a.slice.value == 0
+                          and isinstance(a.value, ast.Call) and isinstance(a.value.func, ast.Attribute) and a.value.func.attr in ("split", "splitlines")
+                          and (a.value.func.attr == "splitlines" or (a.value.args[:1] and isinstance(a.value.args[0], ast.Constant) and a.value.args[0].value == "\n"))]
+            ok = by_prefix or not (positional and decorated)
+            ctx.check("C17.b.fallback-name", RT2, qualname(add), "name of the replacement flow", ok,
+                      "the name of the replacement flow is taken from the `flow ...` line of the generated source" if ok else
+                      "the replacement flow's name is taken from line 0 of the generated source (`%s`), but every producer of generated flows (%d sites in actions/v2_x/generation.py) puts an "
+                      "`@meta(...)` decorator line first: the replacement source is invalid too, AddFlowsAction fails and the turn ends with an empty reply" % (first_line(positional[0], 50), len(decorated)),
+                      line=(positional[0].lineno if positional else h.lineno))
+
+
+def a_utterance_verbatim(ctx):
+    """All bot text - LLM text included - reaches the user through the library's utterance flows (`bot say $text` -> `_bot_say $text` ->
+    `UtteranceBotAction(script=$text)`).  A Colang string literal is an evaluator: `"{$text}"` splices the value into expression source, where `$name` is
+    rewritten, `{{` collapses and a quote can end the literal.  So on the way from the parameter to the action argument the value may be copied, never
+    re-embedded in a string literal."""
+    n = 0
+    # since F75 the interpolation escapes the spliced value completely; re-embedding is then the identity on strings and nothing to report
+    total = interpolation_is_total(ctx)
+    for rel in (rails.CORE_CO, rails.GUARDRAILS_CO):
+        flows = rails.parse_co(ctx.tree, rel)
+        for f in flows:
+            sinks = []
+            for st in f.walk():
+                if st.kind in ("await", "call", "start", "assign") and (st.expr or "").startswith("UtteranceBotAction"):
+                    m = re.search(r"script\s*=\s*\$(\w+)", st.expr)
+                    sinks.append((st, m.group(1) if m else None))
+                elif colang2.flow_call_name(st) == "_bot_say":
+                    m = re.match(r"^\s*\$(\w+)\s*$", st.args or "")
+                    sinks.append((st, m.group(1) if m else None))
+            for st, var in sinks:
+                n += 1
+                if var is None:
+                    lit = re.search(r"[\"'][^\"']*\{[^{]", st.expr or st.text or "")
+                    ctx.check("C17.a.utterance-verbatim", rel, f.name, st.text, not lit,
+                              "the uttered text is not an interpolated string literal" if not lit else "the uttered text is an interpolated string literal", line=st.line)
+                    continue
+                bad = [] if total else [a for a in f.walk() if a.kind == "assign" and a.target == var and a.op is None and re.search(r"[\"'].*\{\s*\$", a.expr or "")]
+                ctx.check("C17.a.utterance-verbatim", rel, f.name, st.text, not bad,
+                          "`$%s` reaches the utterance as the value the flow received (no string-literal re-embedding on the way)" % var if not bad else
+                          "`%s` re-embeds the text in a string literal before it is uttered: string interpolation splices the value into expression source, so `$name` in an LLM reply "
+                          "becomes `var_name`, `{{ }}` collapses to `{ }`, and a backslash-quote sequence makes the literal unparsable (the reply is dropped)" % bad[0].text,
+                          line=(bad[0].line if bad else st.line))
+    ctx.floor("C17.a.utterance-verbatim", rails.CORE_CO, "utterance sinks in the shipped library", n, 4)
+
+
+EVAL2 = "nemoguardrails/colang/v2_x/runtime/eval.py"
+UTILS2 = "nemoguardrails/colang/v2_x/runtime/utils.py"
+LITERAL_META = {"\\": "backslash", "'": "single quote", '"': "double quote", "{": "opening brace", "}": "closing brace", "$": "variable marker `$`"}
+
+
+def _escaped_chars(fn):
+    """Characters a string-escaping helper replaces UNCONDITIONALLY: membership tests against a string constant (`c in "..."`), first arguments of
+    `.replace(c, ...)`, keys of dict literals used as replacement maps, and plain character classes of `re.sub` patterns.  A pattern with context
+    (`(^|[^\\\\])('|")` - "unless already escaped") is not unconditional and does not count."""
+    out = set()
+    for n in ast.walk(fn):
+        if isinstance(n, ast.Compare) and len(n.ops) == 1 and isinstance(n.ops[0], ast.In) and isinstance(n.comparators[0], ast.Constant) and isinstance(n.comparators[0].value, str):
+            out |= set(n.comparators[0].value)
+        if isinstance(n, ast.Compare) and len(n.ops) == 1 and isinstance(n.ops[0], ast.In) and isinstance(n.comparators[0], (ast.Set, ast.Tuple, ast.List)):
+            out |= {e.value for e in n.comparators[0].elts if isinstance(e, ast.Constant) and isinstance(e.value, str) and len(e.value) == 1}
+        if isinstance(n, ast.Call) and isinstance(n.func, ast.Attribute) and n.func.attr == "replace" and n.args and isinstance(n.args[0], ast.Constant) \
+                and isinstance(n.args[0].value, str) and len(n.args[0].value) == 1:
+            out.add(n.args[0].value)
+        if isinstance(n, ast.Dict):
+            ks = [k.value for k in n.keys if isinstance(k, ast.Constant) and isinstance(k.value, str) and len(k.value) == 1]
+            if len(ks) == len(n.keys):
+                out |= set(ks)
+        if isinstance(n, ast.Call) and src(n.func) == "re.sub" and n.args and isinstance(n.args[0], ast.Constant) and isinstance(n.args[0].value, str):
+            m = re.fullmatch(r"\(?\[([^\]\^][^\]]*)\]\)?", n.args[0].value)
+            if m:
+                body = m.group(1)
+                out |= set(re.sub(r"\\(.)", r"\1", body))
+    return out
+
+
+def interpolation_is_total(ctx):
+    """True when eval_expression escapes every literal/evaluation meta character of a spliced value (shared with C10.e)."""
+    t = ctx.tree.ast(EVAL2)
+    fn = find_function(t, "eval_expression")
+    if fn is None:
+        raise AnalysisError("eval_expression not found", anchor=EVAL2 + "::eval_expression")
+    loops = [l for l in ast.walk(fn) if isinstance(l, ast.For) and isinstance(l.target, ast.Name) and any(
+        isinstance(c, ast.Call) and src(c.func) == "eval_expression" and c.args and src(c.args[0]) == l.target.id for c in ast.walk(l))]
+    if not loops:
+        return True
+    handled = set()
+    for c in ast.walk(loops[0]):
+        if isinstance(c, ast.Call) and isinstance(c.func, ast.Name) and c.func.id not in ("eval_expression", "str", "repr"):
+            hf = find_function(t, c.func.id) or find_function(ctx.tree.ast(UTILS2), c.func.id)
+            if hf is not None:
+                handled |= _escaped_chars(hf)
+    return all(c in handled for c in LITERAL_META)
+
+
+def a_interpolation_escape(ctx):
+    """Colang 2.x string interpolation splices the VALUE of `{expr}` into the source of a string literal that is evaluated afterwards (and on which `{{`-unescaping and the
+    `$name` rewrite run).  The value is LLM text whenever a generated value or a bot message is interpolated (`bot say "Nice to meet you, {$name}!"`).  It is data only if the
+    splice escapes every character that means something to the literal or to those later passes: backslash, both quotes, both braces and `$`."""
+    t = ctx.tree.ast(EVAL2)
+    fn = find_function(t, "eval_expression")
+    if fn is None:
+        raise AnalysisError("eval_expression not found", anchor=EVAL2 + "::eval_expression")
+    loops = [l for l in ast.walk(fn) if isinstance(l, ast.For) and isinstance(l.target, ast.Name) and any(
+        isinstance(c, ast.Call) and src(c.func) == "eval_expression" and c.args and src(c.args[0]) == l.target.id for c in ast.walk(l))]
+    if not loops:
+        # no value is evaluated-and-spliced any more (e.g. values bound as names): nothing to escape
+        ctx.check("C17.a.interpolation-escape", EVAL2, "eval_expression", "inner expressions", True, "inner expression values are not spliced into expression source", line=fn.lineno)
+        return
+    lp = loops[0]
+    apps = [c for c in ast.walk(lp) if isinstance(c, ast.Call) and isinstance(c.func, ast.Attribute) and c.func.attr == "append" and c.args]
+    if not apps:
+        raise AnalysisError("eval_expression: collection of inner expression values not recognised", anchor=EVAL2 + "::eval_expression")
+    # all helper calls the value passes through between its evaluation and the append
+    var = src(apps[-1].args[0]) if isinstance(apps[-1].args[0], ast.Name) else None
+    helpers = []
+    exprs = [apps[-1].args[0]] + [a.value for a in ast.walk(lp) if isinstance(a, ast.Assign) and var and any(isinstance(t_, ast.Name) and t_.id == var for t_ in a.targets)]
+    for e in exprs:
+        for c in ast.walk(e):
+            if isinstance(c, ast.Call) and isinstance(c.func, ast.Name) and c.func.id not in ("eval_expression", "str", "repr"):
+                helpers.append(c.func.id)
+    handled = set()
+    resolved = []
+    for h in helpers:
+        hf = find_function(t, h) or find_function(ctx.tree.ast(UTILS2), h)
+        if hf is not None:
+            resolved.append(h)
+            handled |= _escaped_chars(hf)
+    missing = [LITERAL_META[c] for c in LITERAL_META if c not in handled]
+    ctx.check("C17.a.interpolation-escape", EVAL2, "eval_expression", "escaping of interpolated values", not missing,
+              "the spliced value passes through %s, which escapes backslash, quotes, braces and `$` unconditionally: the literal evaluates to the value itself" % resolved if not missing else
+              "the value of `{expr}` is spliced into the literal's source through %s, which does not unconditionally escape: %s. An LLM-generated value such as `Bob\"\" + str(7*7) + $api_key #` "
+              "leaves the string literal and is evaluated as code (arithmetic executed, flow variables leaked); `{{ }}` and `$name` in plain text are rewritten"
+              % (resolved or "no helper", ", ".join(missing)), line=lp.lineno)
+
+
+def _may_return_none(fn):
+    """syntactic: some return yields None (explicitly, bare, through a local that is assigned None, or by falling off the end)"""
+    rets = [r for r in walk_no_nested(fn) if isinstance(r, ast.Return)]
+    for r in rets:
+        if r.value is None or (isinstance(r.value, ast.Constant) and r.value.value is None):
+            return True
+        if isinstance(r.value, ast.Name):
+            for a in walk_no_nested(fn):
+                if isinstance(a, (ast.Assign, ast.AnnAssign)) and a.value is not None:
+                    tg = a.targets if isinstance(a, ast.Assign) else [a.target]
+                    if any(isinstance(t_, ast.Name) and t_.id == r.value.id for t_ in tg) and isinstance(a.value, ast.Constant) and a.value.value is None:
+                        return True
+        elif not isinstance(r.value, (ast.Constant, ast.JoinedStr, ast.List, ast.Dict, ast.Tuple, ast.BinOp)):
+            return True     # a call / attribute / subscript: unknown, may be None
+    last = fn.body[-1]
+    if not isinstance(last, (ast.Return, ast.Raise)):
+        return True
+    return False
+
+
+def b_guards_live(ctx):
+    """`x = helper(llm_text)` ... `if x is None: raise LlmResponseError` is how the generation actions reject a completion that lacks the expected part.  The guard only
+    works if the helper can return None; a helper that returns "" instead lets the malformed completion through (contradiction between callee and call site)."""
+    ut = ctx.tree.ast(UTILS)
+    n = 0
+    for rel in (GEN1, GEN2):
+        t = ctx.tree.ast(rel)
+        for fn in functions(t):
+            for g in [x for x in walk_no_nested(fn) if isinstance(x, ast.If)]:
+                te = g.test
+                if not (isinstance(te, ast.Compare) and len(te.ops) == 1 and isinstance(te.ops[0], ast.Is) and isinstance(te.left, ast.Name)
+                        and isinstance(te.comparators[0], ast.Constant) and te.comparators[0].value is None):
+                    continue
+                if not any(isinstance(r, ast.Raise) for st in g.body for r in ast.walk(st)):
+                    continue
+                var = te.left.id
+                defs = [a for a in walk_no_nested(fn) if isinstance(a, ast.Assign) and a.lineno < g.lineno and any(isinstance(t_, ast.Name) and t_.id == var for t_ in a.targets)]
+                if not defs:
+                    continue
+                d = defs[-1]
+                if not (isinstance(d.value, ast.Call) and isinstance(d.value.func, ast.Name)):
+                    continue
+                callee = find_function(ut, d.value.func.id) or find_function(t, d.value.func.id)
+                if callee is None:
+                    continue
+                n += 1
+                live = _may_return_none(callee)
+                ctx.check("C17.b.guard-live", rel, qualname(fn), "%s  ->  %s" % (first_line(d, 50), first_line(g, 40)), live,
+                          "`%s` can return None, so the rejection of a completion without that part is reachable" % callee.name if live else
+                          "`%s` never returns None (it returns an empty string when the part is missing), so `%s` is dead: a completion without that part is not rejected, an empty flow body is "
+                          "generated, it does not parse, and the turn ends with an empty reply" % (callee.name, first_line(g, 40)), line=g.lineno)
+    ctx.floor("C17.b.guard-live", GEN2, "`is None` rejections of helper results in the generation actions", n, 2)
+
+
+SLIDING1 = "nemoguardrails/colang/v1_0/runtime/sliding.py"
+
+
+def b_dynamic_flow_bounded(ctx):
+    """Multi-step generation turns LLM text into a Colang 1.0 flow and runs it.  The text may contain `while`, `goto`/`label`; slide() follows jumps and evaluates
+    conditions in a `while True` loop that emits no event, so the event budget of generate_events never sees it.  generate() terminates for every completion only if the
+    generated flow cannot loop (rejected before it is started) or slide() itself has a step budget."""
+    gen = ctx.tree.ast(GEN1)
+    emits = [c for c in ast.walk(gen) if isinstance(c, ast.Call) and src(c.func) == "new_event_dict" and c.args and isinstance(c.args[0], ast.Constant) and c.args[0].value == "start_flow"]
+    if not emits:
+        ctx.check("C17.b.dynamic-flow-bounded", GEN1, "generate_next_step", "start_flow emission", True, "no LLM-derived flow is started any more", line=1)
+        return
+    sl = ctx.tree.ast(SLIDING1)
+    slide = find_function(sl, "slide")
+    if slide is None:
+        raise AnalysisError("v1 slide not found", anchor=SLIDING1 + "::slide")
+    loops = [w for w in walk_no_nested(slide) if isinstance(w, ast.While) and isinstance(w.test, ast.Constant) and w.test.value is True]
+    budget = False
+    for w in loops:
+        # a counter incremented in the loop and compared in a test that raises / breaks / returns
+        # (a step counter: `n += 1` as a statement of the loop body itself - the head index, advanced conditionally by jump distances, is not one)
+        incs = {src(a.target) for a in w.body if isinstance(a, ast.AugAssign) and isinstance(a.op, ast.Add) and isinstance(a.value, ast.Constant) and a.value.value == 1}
+        for i_ in ast.walk(w):
+            if isinstance(i_, ast.If) and any(v in src(i_.test) for v in incs) and any(isinstance(x, (ast.Raise, ast.Break, ast.Return)) for st in i_.body for x in ast.walk(st)) \
+                    and any(isinstance(o, (ast.Gt, ast.GtE, ast.Lt, ast.LtE)) for c in ast.walk(i_.test) if isinstance(c, ast.Compare) for o in c.ops):
+                budget = True
+    bounded_loops = not loops or budget
+    # or: the generation action rejects looping constructs in the generated text
+    fn = None
+    for f in functions(gen):
+        if f.name == "generate_next_step":
+            fn = f
+    rejects = fn is not None and any(isinstance(c, ast.Constant) and isinstance(c.value, str) and c.value.strip() in ("while", "goto", "while True") for c in ast.walk(fn))
+    ok = bounded_loops or rejects
+    ctx.check("C17.b.dynamic-flow-bounded", SLIDING1, "slide", "`while True` over the elements of an LLM-generated flow", ok,
+              "the interpreter loop that runs generated flows has a step budget (or looping constructs are rejected before the flow is started)" if ok else
+              "generate_next_step starts the LLM's text as a flow after checking only that it parses; slide() then follows its jumps in `while True` (%d loop(s)) without any step budget and "
+              "without producing events: a completion such as `while True` / `$i = 1`, or `label again` / `goto again`, makes generate() spin forever" % len(loops),
+              line=(loops[0].lineno if loops else slide.lineno))
